@@ -6,16 +6,32 @@ open Iora Iora.Tsvc Iora.Driver
 inductive Kind where
   | normal | gate | cancels (j : Nat)
 
+/-- where the loop thread is: parked in `epoll_wait`; blocked in a gate handler of the batch collected after `epoll_wait` or of the
+exit-branch batch; out of `runLoop` (waiting to be joined); joined -/
+inductive LPos where
+  | parked | inPost | inExit | left | gone
+  deriving DecidableEq
+
 structure St where
   L : Limits := ⟨10000, 1000, 86400000000000⟩
   s : Svc := {}
   clk : Int := 0
   kinds : List (Nat × Kind) := []
   live : Bool := false
-  /-- a `drain` started by the op list has not been reported by `dwait` yet; its virtual deadline; its outcome once it has returned -/
+  lpos : LPos := .parked
+  /-- the helper thread that runs `drain(ms)`: not yet reaped by `dwait`; deadline (`none` = `drain(0)`); result once it has returned;
+  started with `park`; held before its restore section -/
   dact : Bool := false
-  ddl : Int := 0
+  ddl : Option Int := none
   dres : Option String := none
+  dpark : Bool := false
+  dparked : Bool := false
+  /-- the helper thread that runs `stop()`: started; it owns the drain in progress (`drain(5000)` inside `stop()`); that drain's
+  deadline; position `drainwait | join | ok | refused` -/
+  sact : Bool := false
+  sown : Bool := false
+  sddl : Int := 0
+  spos : String := "none"
 
 def commaSep (xs : List String) : String := if xs.isEmpty then "-" else ",".intercalate xs
 
@@ -29,7 +45,7 @@ def showState (s : Svc) : String :=
   let rc := commaSep ((sortBy (·.id) s.records).map (fun r => s!"{r.id}:{r.tp}:{bit r.canceled}"))
   let pr := commaSep ((sortBy (·.id) s.periodic).map (fun p => s!"{p.id}:{p.interval}:{p.next}:{bit p.canceled}"))
   let lf := match s.life with | .running => "R" | .draining => "D" | .stopped => "S"
-  s!"heap={hp} rec={rc} per={pr} exec={s.executing} acc={bit s.accepting} life={lf}"
+  s!"heap={hp} rec={rc} per={pr} exec={s.executing} acc={bit s.accepting} life={lf} run={bit s.running}"
 
 def parseKind (k : String) : Option Kind :=
   if k = "n" then some .normal
@@ -59,21 +75,50 @@ def runHandlers (st : St) : Nat → Svc → List String → Svc × List String
         let c := cancel r.1 j
         runHandlers st f (hend c.1) (ev1 ++ [s!"c{j}={bit c.2}", s!"e{h.id}"])
 
-/-- the drainer thread re-evaluates after every op (the harness forces a spurious wake-up there): predicate true ⇒ `drain` returns
-success; else deadline reached ⇒ it times out and runs the restore section; else it keeps waiting -/
-def settle (st : St) : St :=
-  if st.dact && st.dres.isNone && st.s.dpc == .waiting then
-    if drainPred st.s then { st with s := (drainDone st.s).1, dres := some "ok" }
-    else if st.clk ≥ st.ddl then { st with s := drainRestore (drainTimeout st.s), dres := some "timeout" }
-    else st
-  else st
+/-- `stop()` after its drain part: the flag section, `_running = false`, `poke`, then it sits in `_thread.join()` -/
+def stopTail (st : St) : St := { st with s := stopHalt (stopFlag st.s), sown := false, spos := "join" }
 
-/-- an op's answer: `\x01` marks where the state is printed, AFTER the drainer has settled -/
+/-- every helper thread re-evaluates after every op (the harness forces a spurious wake-up there).  A waiting drain: predicate true ⇒
+it returns success; else deadline reached ⇒ it times out and runs the restore section (a drainer started with `park` is held just
+before it); else it keeps waiting.  `stop()` goes on after its drain; once the loop thread has left `runLoop` its join returns and it
+publishes Stopped. -/
+def settle (st : St) : St :=
+  let st1 : St :=
+    if st.dact && st.dres.isNone && !st.dparked && !st.sown && st.s.dpc == .waiting then
+      if drainPred st.s then { st with s := (drainDone st.s).1, dres := some "ok" }
+      else if (match st.ddl with | some d => decide (st.clk ≥ d) | none => false) then
+        if st.dpark then { st with s := drainTimeout st.s, dparked := true }
+        else { st with s := drainRestore (drainTimeout st.s), dres := some "timeout" }
+      else st
+    else st
+  let st2 : St :=
+    if st1.sact && st1.sown && st1.s.dpc == .waiting then
+      if drainPred st1.s then stopTail { st1 with s := (drainDone st1.s).1 }
+      else if st1.clk ≥ st1.sddl then stopTail { st1 with s := drainRestore (drainTimeout st1.s) }
+      else st1
+    else st1
+  if st2.sact && st2.spos = "join" && st2.s.exited then
+    { st2 with s := (stopFinish st2.s).1, spos := "ok", lpos := .gone }
+  else st2
+
+/-- an op's answer: `\x01` marks where the state is printed, AFTER the helper threads have settled -/
 def finish (r : St × String) : St × String :=
   if r.2 = "bad-op" || !r.1.live then r
   else
     let st := settle r.1
     (st, r.2.replace "\x01" (showState st.s))
+
+/-- the loop thread after the handlers of the post-`epoll_wait` batch: top of the loop; with `_running == false` the exit branch -/
+def afterExit (st : St) (s : Svc) (ev : List String) : St × List String :=
+  ({ st with s := loopExit s, lpos := .left }, ev)
+
+def afterPost (st : St) (s : Svc) (ev : List String) : St × List String :=
+  if !s.running then
+    let c := collect s st.clk true
+    let r := runHandlers st (c.2.1.length + 1) c.1 ev
+    if r.1.inflight.isSome then ({ st with s := r.1, lpos := .inExit }, r.2)
+    else afterExit st r.1 r.2
+  else ({ st with s := s, lpos := .parked }, ev)
 
 def step0 (st : St) : List String → St × String
   | ["reset", a, b, c] =>
@@ -110,10 +155,14 @@ def step0 (st : St) : List String → St × String
     | none => (st, "bad-op")
   | ["wake"] =>
     if !st.live then (st, "bad-op") else
+    if st.lpos == .gone then (st, "gone \x01") else
     if st.s.inflight.isSome then (st, "busy") else
-    let c := collect st.s st.clk
+    let c := collect st.s st.clk false
     let r := runHandlers st (c.2.1.length + 1) c.1 []
-    ({ st with s := r.1 }, s!"ev={commaSep r.2} \x01")
+    if r.1.inflight.isSome then ({ st with s := r.1, lpos := .inPost }, s!"ev={commaSep r.2} \x01")
+    else
+      let a := afterPost st r.1 r.2
+      (a.1, s!"ev={commaSep a.2} \x01")
   | ["release"] =>
     if !st.live then (st, "bad-op") else
     match st.s.inflight with
@@ -121,13 +170,16 @@ def step0 (st : St) : List String → St × String
     | some h =>
       let s1 := hend st.s
       let r := runHandlers st (s1.ready.length + 1) s1 [s!"e{h.id}"]
-      ({ st with s := r.1 }, s!"ev={commaSep r.2} \x01")
+      if r.1.inflight.isSome then ({ st with s := r.1 }, s!"ev={commaSep r.2} \x01")
+      else
+        let a := if st.lpos == .inExit then afterExit st r.1 r.2 else afterPost st r.1 r.2
+        (a.1, s!"ev={commaSep a.2} \x01")
   | ["inflight"] => if !st.live then (st, "bad-op") else (st, toString (liveCount st.s))
-  | ["drain", ms] =>
-    if !st.live then (st, "bad-op") else
+  | "drain" :: ms :: rest =>
+    if !st.live || !(rest == [] || rest == ["park"]) then (st, "bad-op") else
     match ms.toNat? with
     | some ms =>
-      if ms = 0 || ms > 5000 then (st, "bad-op")
+      if ms > 5000 then (st, "bad-op")
       else if st.dact then (st, "d=busy \x01")
       else
         let g := drainGate st.s
@@ -135,14 +187,38 @@ def step0 (st : St) : List String → St × String
         else
           let s2 := drainSweep g.1 st.clk (ms * 1000000)
           if drainPred s2 then ({ st with s := (drainDone s2).1 }, "d=ok \x01")
-          else ({ st with s := s2, dact := true, ddl := st.clk + ms * 1000000, dres := none }, "d=wait \x01")
+          else ({ st with s := s2, dact := true, ddl := if ms = 0 then none else some (st.clk + ms * 1000000), dres := none,
+                          dpark := rest == ["park"], dparked := false, sown := false }, "d=wait \x01")
     | none => (st, "bad-op")
   | ["dwait"] =>
     if !st.live then (st, "bad-op") else
     if !st.dact then (st, "d=none \x01")
+    else if st.dparked then (st, "d=parked \x01")
     else match st.dres with
       | some r => ({ st with dact := false, dres := none }, s!"d={r} \x01")
-      | none => (st, "d=blocked \x01")
+      | none => (st, "d=wait \x01")
+  | ["dgo"] =>
+    if !st.live then (st, "bad-op") else
+    if st.dact && st.dparked then ({ st with s := drainRestore st.s, dparked := false, dres := some "timeout" }, "d=go \x01")
+    else (st, "d=notparked \x01")
+  | ["stop"] =>
+    if !st.live then (st, "bad-op") else
+    if st.sact then (st, "s=busy \x01")
+    else if st.s.life == .stopped then ({ st with sact := true, spos := "refused" }, "s=refused \x01")
+    else if st.s.life == .running then
+      let g := drainGate st.s
+      let s2 := drainSweep g.1 st.clk 5000000000
+      if drainPred s2 then
+        let st' := stopTail { st with s := (drainDone s2).1, sact := true }
+        (st', "s=join \x01")
+      else ({ st with s := s2, sact := true, sown := true, sddl := st.clk + 5000000000, spos := "drainwait" }, "s=drainwait \x01")
+    else
+      let st' := stopTail { st with sact := true }
+      (st', "s=join \x01")
+  | ["swait"] =>
+    if !st.live then (st, "bad-op") else
+    if !st.sact then (st, "s=none \x01") else (st, s!"s={st.spos} \x01")
+  | ["vclock"] => if !st.live then (st, "bad-op") else (st, "virtual")
   | _ => (st, "bad-op")
 
 def step (st : St) (toks : List String) : St × String := finish (step0 st toks)
